@@ -2,6 +2,7 @@ import TakVerif.Props.C06
 import TakVerif.Proofs.CmdAnalyze
 import TakVerif.Proofs.TakAlternating
 import TakVerif.Proofs.CmdCorpus
+import TakVerif.Proofs.TakGamePN
 
 /-!
 # C06 at its consumers: `taktician analyze -prove / -dfpn` and `taktician gencorpus -analysis dfpn`
@@ -69,13 +70,16 @@ object of `C06.pn_proven_sound`), for every `-prove` report the command prints (
 ghost flag of that run is up (see `Props/C06.lean`) —
 `WIN` ⇒ the side to move there has a forced win; the printed move is legal and keeps it;
 `DRAW|LOSE` ⇒ the side to move has no forced win (draws and repetitions count against it).
-Of C06's standing assumptions on the game (`GameOK`), alternation is PROVED for the Tak instance
-(`takGame_alternating'`, `Proofs/TakAlternating.lean`: `Position.Move` adds one to the ply counter and nothing else
-touches it) and the attacker is a colour; what remains assumed is `hsmall`: fewer than 2³² generated moves per position. -/
+All of C06's standing assumptions on the game are PROVED for the Tak instance on the positions a search from the
+reported position can reach (`takGame_okFrom`, `Proofs/TakGamePN.lean`: alternation — `Position.Move` adds one to the ply
+counter and nothing else touches it —, the attacker is a colour, and `|AllMoves| ≤ size²·1020 < 2³²` on boards up to 8×8,
+`allMoves_length`; play never changes the configuration).  What is asked is only that the reported position is on a board
+of size ≤ 8 (`h8`): the sizes `tak.New` accepts (`new_size_le`) — for a malformed position value with a huge `cfg.size` the
+bound on the number of generated moves is false. -/
 theorem analyze_prove_sound (env : PTN.Env) (eng : Engines E) (f : Flags) (input : PTN.Bytes)
     (basis : Array W) (fuel : Nat) (heng : ∀ cfg p, eng.pn cfg p = Tak.PN.takProve basis fuel cfg p)
-    (hsmall : SmallBranching (takGame basis)) (p : Pos) (out : Tak.PN.Result Move) (stats : Tak.PN.Stats)
-    (hi : Item.pnResult p out stats ∈ (execute env eng f input).1) :
+    (p : Pos) (out : Tak.PN.Result Move) (stats : Tak.PN.Stats)
+    (hi : Item.pnResult p out stats ∈ (execute env eng f input).1) (h8 : p.cfg.size ≤ 8) :
     ∃ st, proveState (takGame basis) p.toMove fuel (pnCfg f) p = .ok st ∧ readResult st = (out, stats) ∧
       (st.anomaly = false →
         (out.result = .proven → PlainWin (takGame basis) p.toMove p ∧
@@ -85,7 +89,7 @@ theorem analyze_prove_sound (env : PTN.Env) (eng : Engines E) (f : Flags) (input
   have hrep := (analyze_solver_reports env eng f input).1 p out stats hi
   rw [heng] at hrep
   unfold Tak.PN.takProve Tak.PN.prove at hrep
-  have hg : GameOK (takGame basis) p.toMove := ⟨takGame_alternating' basis, Tak.toMove_cases p, hsmall⟩
+  have hg : GameOKFrom (takGame basis) p.toMove p := takGame_okFrom basis p h8
   cases hst : proveState (takGame basis) p.toMove fuel (pnCfg f) p with
   | error e => rw [hst] at hrep; cases hrep
   | ok st =>
@@ -97,11 +101,30 @@ theorem analyze_prove_sound (env : PTN.Env) (eng : Engines E) (f : Flags) (input
     constructor
     · intro hres
       have hres' : (readResult st).1.result = .proven := by rw [hout]; exact hres
-      refine ⟨pn_proven_sound (takGame basis) p.toMove hg fuel (pnCfg f) p st rfl hst hghost hres', ?_⟩
+      refine ⟨pn_proven_sound_from (takGame basis) p.toMove hg fuel (pnCfg f) st rfl hst hghost hres', ?_⟩
       intro m hm
-      exact pn_move_sound (takGame basis) p.toMove hg fuel (pnCfg f) p st rfl hst hghost hres' m (by rw [hout]; exact hm)
+      exact pn_move_sound_from (takGame basis) p.toMove hg fuel (pnCfg f) st rfl hst hghost hres' m (by rw [hout]; exact hm)
     · intro hres
-      exact pn_disproven_sound (takGame basis) p.toMove hg fuel (pnCfg f) p st rfl hst hghost (by rw [hout]; exact hres)
+      exact pn_disproven_sound_from (takGame basis) p.toMove hg fuel (pnCfg f) st rfl hst hghost (by rw [hout]; exact hres)
+
+/-- the positions `tak.New` returns are on boards of size ≤ 8 (`defaultPieces[g.Size]` panics beyond), and play keeps
+the configuration (`C06.reach_cfg`): the hypothesis `h8` of `analyze_prove_sound` holds of every position of a game
+started by `New` -/
+theorem new_size_le {cfg : Tak.Cfg} {p : Pos} (h : Pos.new cfg = .ok p) : p.cfg.size ≤ 8 := by
+  unfold Pos.new at h
+  split at h
+  · cases h
+  · extract_lets pieces caps at h
+    split at h
+    · cases h
+    · rename_i hs
+      cases h
+      show cfg.size ≤ 8
+      omega
+
+example (basis : Array W) (cfg : Tak.Cfg) (root p : Pos) (h : Pos.new cfg = .ok root)
+    (hr : Reach (takGame basis) root p) : p.cfg.size ≤ 8 := by
+  rw [reach_cfg basis hr]; exact new_size_le h
 
 end analyze
 
